@@ -585,8 +585,8 @@ def is_shm_pointer_batch(batch: pa.RecordBatch, custom_metadata: pa.KeyValueMeta
     """Check whether a batch is a shared memory pointer.
 
     A pointer batch is a zero-row batch whose custom metadata contains
-    ``SHM_OFFSET_KEY`` and does NOT contain ``LOG_LEVEL_KEY`` (which would
-    make it a log batch).
+    ``SHM_OFFSET_KEY`` and ``SHM_LENGTH_KEY`` and does NOT contain
+    ``LOG_LEVEL_KEY`` (which would make it a log batch).
 
     Args:
         batch: The record batch to check.
@@ -600,7 +600,7 @@ def is_shm_pointer_batch(batch: pa.RecordBatch, custom_metadata: pa.KeyValueMeta
         return False
     if custom_metadata is None:
         return False
-    if custom_metadata.get(SHM_OFFSET_KEY) is None:
+    if custom_metadata.get(SHM_OFFSET_KEY) is None or custom_metadata.get(SHM_LENGTH_KEY) is None:
         return False
     return custom_metadata.get(LOG_LEVEL_KEY) is None
 
